@@ -389,6 +389,7 @@ type FuncContract struct {
 	Trusted   bool // assumed, body not verified
 	NoInline  bool
 	Fresh     []int // result indexes that are fresh allocations
+	Decreases *Clause
 	Notes     []string
 	Src       string
 	IsSpec    bool // from /verif/specs (dependency)
@@ -450,7 +451,7 @@ func (cs *Contracts) ParseContractFile(path string, pkgName string, isSpec bool)
 		line int
 	}
 	var lines []lline
-	heads := []string{"func ", "type ", "spec ", "axiom ", "lemma ", "props ", "arith ", "requires", "ensures", "assigns", "loop ", "pure", "trusted", "noinline", "fresh ", "note ", "assert", "invariant ", "guarded_by ", "immutable"}
+	heads := []string{"func ", "type ", "spec ", "axiom ", "lemma ", "props ", "arith ", "requires", "ensures", "assigns", "loop ", "pure", "trusted", "noinline", "fresh ", "note ", "assert", "invariant ", "guarded_by ", "immutable", "decreases ", "ghost "}
 	for i, raw := range strings.Split(string(data), "\n") {
 		s := strings.TrimSpace(raw)
 		if !strings.HasPrefix(s, "//@") {
@@ -611,6 +612,8 @@ func (cs *Contracts) ParseContractFile(path string, pkgName string, isSpec bool)
 					curF.Assigns = append(curF.Assigns, a)
 				}
 			}
+		case strings.HasPrefix(s, "decreases "):
+			curF.Decreases = mkClause("decreases", "", strings.TrimSpace(s[10:]), src)
 		case strings.HasPrefix(s, "loop "):
 			f := strings.Fields(s)
 			if len(f) < 3 {
